@@ -76,6 +76,79 @@ Qed.
 
 End Preds.
 
+Lemma places_and P1 P2 P3 s : places_ok P1 s -> places_ok P2 s ->
+  (forall d m, PQ P1 d m -> PQ P2 d m -> PQ P3 d m) -> (forall k m, PL P1 k m -> PL P2 k m -> PL P3 k m) ->
+  (forall m, PB P1 m -> PB P2 m -> PB P3 m) -> places_ok P3 s.
+Proof.
+  intros [A1 A2 A3 A4] [B1 B2 B3 B4] Hq Hl Hb.
+  assert (F2 : forall (X Y Z : msg -> Prop) l, Forall X l -> Forall Y l -> (forall m, X m -> Y m -> Z m) -> Forall Z l).
+  { intros X Y Z l HX HY HZ. rewrite Forall_forall in *. intros m Hm. apply HZ; auto. }
+  constructor.
+  - intros d l Hin. eapply F2; [eapply A1, Hin | eapply B1, Hin | apply Hq].
+  - intros k x Hk. eapply F2; [eapply A2, Hk | eapply B2, Hk | apply Hl].
+  - rewrite Forall_forall in *. intros x Hx. eapply F2; [apply A3, Hx | apply B3, Hx | apply Hb].
+  - rewrite Forall_forall in *. intros x Hx. eapply F2; [apply A4, Hx | apply B4, Hx | apply Hb].
+Qed.
+
+(* the epoch-independent part of the predicates: holds across steps that move the epoch, whatever stamps they use *)
+Definition upw (m : msg) : Prop :=
+  (stamped m = true -> fresh_pass m = false) /\ (is_data m = true -> fresh_pass m = false -> m_hasseq m = true).
+Definition upkw (k : tpk) (m : msg) : Prop := upw m /\ (is_data m = true -> msg_key m = k).
+Definition downw (m : msg) : Prop := is_data m = true -> m_hasseq m = true.
+Definition PEw : preds :=
+  mkPreds (fun d m => match d with
+                      | DDisp | DRetry | DTopic _ => upw m
+                      | DPart t p => upkw (t, p) m
+                      | DBp _ => downw m
+                      | DCur => True
+                      end) upkw downw.
+
+Lemma PE_PEw E s : places_ok (PE E) s -> places_ok PEw s.
+Proof.
+  intros H. eapply places_and; [exact H | exact H | | |]; cbn [PE PEw PQ PL PB].
+  - intros d m H1 _. destruct d; try exact I; try (destruct H1 as [_ H1]; exact H1).
+    destruct H1 as [[_ H1] H2]. split; assumption.
+  - intros k m [[_ H1] H2] _. split; assumption.
+  - intros m [_ H1] _. exact H1.
+Qed.
+
+Lemma transfers_PEw c ep sqf : c_idem c = true -> transfers PEw True c ep sqf /\ transfers_any PEw c.
+Proof.
+  intros Hi.
+  assert (Fwd : forall t p m sq e, upkw (t, p) m -> downw (if c_idem c && fresh_pass m && is_data m then set_stamp m sq e else m)).
+  { intros t p m sq e [[H2 H3] H4]. destruct (c_idem c && fresh_pass m && is_data m) eqn:Ec; [intros _; reflexivity|].
+    intros Hd. rewrite Hi, Hd, andb_true_r in Ec. cbn [andb] in Ec. apply H3; assumption. }
+  assert (Fl : forall t p m sq e, upkw (t, p) m -> downw (if c_idem c && fresh_pass m && is_data m && negb (m_hasseq m) then set_stamp m sq e else m)).
+  { intros t p m sq e [[H2 H3] H4]. destruct (c_idem c && fresh_pass m && is_data m && negb (m_hasseq m)) eqn:Ec; [intros _; reflexivity|].
+    intros Hd. rewrite Hi, Hd in Ec. cbn [andb] in Ec. rewrite andb_true_r in Ec.
+    destruct (m_hasseq m); [reflexivity|]. rewrite andb_true_r in Ec. apply H3; assumption. }
+  split; [constructor|constructor]; cbn [PEw PQ PL PB].
+  - intros m sz h [H2 H3]. split; assumption.
+  - intros t m [H2 H3] Hf Hp. split; [split|].
+    + intros Hs. rewrite stamped_part in Hs. rewrite (H2 Hs) in Hf. discriminate.
+    + intros _ Hf'. unfold fresh_pass in *. cbn [set_part m_retries] in Hf'. congruence.
+    + intros _. reflexivity.
+  - intros t m Hu Hf. split; [exact Hu | intros _; reflexivity].
+  - intros m H; exact H.
+  - intros _. constructor; cbn [PEw PQ PL PB].
+    + intros t p m H; exact H.
+    + intros t p b m H. eapply Fwd, H.
+    + intros t p b m sq H _. eapply Fl, H.
+    + intros t p b r. split; intros H; discriminate.
+  - intros b m H; exact H.
+  - intros b m H. split; [intros _; reflexivity | intros Hd _; apply H, Hd].
+  - intros m H. split; [intros _; reflexivity | intros Hd _; apply H, Hd].
+  - intros m H; exact H.
+  - intros t p b m sq e H. eapply Fwd, H.
+  - intros t p b m sq e H. eapply Fl, H.
+Qed.
+
+Lemma PEw_submit x : PQ PEw DDisp (fresh_of x).
+Proof. cbn [PEw PQ]. split; [intros H; vm_compute in H; discriminate | intros _ H; vm_compute in H; discriminate]. Qed.
+Lemma PEw_shutdown c : PQ PEw DDisp (shutdown_marker c).
+Proof. cbn [PEw PQ]. split; [intros H; vm_compute in H; discriminate | intros H; vm_compute in H; discriminate]. Qed.
+
+
 (* ---------------------------------------------------------------- labels of the sets a broker worker holds *)
 
 Definition lab_ok (E : Z) (ps : pset) : Prop := forall m, In m (set_msgs ps) -> is_data m = true -> s_epoch ps = E.
@@ -364,6 +437,9 @@ Proof.
   cbn [snd] in Q. apply apply_effs_lab; [|apply quiet_lab, Q]. eapply lab_same; [|exact H]. reflexivity.
 Qed.
 
+Lemma pop_places_frame d s m s1 : pop d s = Some (m, s1) -> g_bps s1 = g_bps s /\ g_rbs s1 = g_rbs s.
+Proof. unfold pop. destruct (q_get d (g_q s)); [discriminate|]. intros H; injection H as _ <-. split; reflexivity. Qed.
+
 Lemma pop_bps d s m s1 : pop d s = Some (m, s1) -> g_bps s1 = g_bps s /\ g_epoch s1 = g_epoch s.
 Proof. unfold pop. destruct (q_get d (g_q s)); [discriminate|]. intros H; injection H as _ <-. split; reflexivity. Qed.
 
@@ -443,40 +519,31 @@ Qed.
 Definition no_stamped (s : state) : Prop :=
   places_ok (mkPreds (fun _ m => stamped m = false) (fun _ m => stamped m = false) (fun m => stamped m = false)) s.
 
-Lemma places_and P1 P2 P3 s : places_ok P1 s -> places_ok P2 s ->
-  (forall d m, PQ P1 d m -> PQ P2 d m -> PQ P3 d m) -> (forall k m, PL P1 k m -> PL P2 k m -> PL P3 k m) ->
-  (forall m, PB P1 m -> PB P2 m -> PB P3 m) -> places_ok P3 s.
-Proof.
-  intros [A1 A2 A3 A4] [B1 B2 B3 B4] Hq Hl Hb.
-  assert (F2 : forall (X Y Z : msg -> Prop) l, Forall X l -> Forall Y l -> (forall m, X m -> Y m -> Z m) -> Forall Z l).
-  { intros X Y Z l HX HY HZ. rewrite Forall_forall in *. intros m Hm. apply HZ; auto. }
-  constructor.
-  - intros d l Hin. eapply F2; [eapply A1, Hin | eapply B1, Hin | apply Hq].
-  - intros k x Hk. eapply F2; [eapply A2, Hk | eapply B2, Hk | apply Hl].
-  - rewrite Forall_forall in *. intros x Hx. eapply F2; [apply A3, Hx | apply B3, Hx | apply Hb].
-  - rewrite Forall_forall in *. intros x Hx. eapply F2; [apply A4, Hx | apply B4, Hx | apply Hb].
-Qed.
 
 (* one step: either the epoch stays, or (class hypothesis) nothing sequenced is left *)
 Lemma einv_step s ch : einv s -> (g_epoch (step c s ch) <> g_epoch s -> no_stamped (step c s ch)) -> einv (step c s ch).
 Proof.
   intros [Hp Hl] Hk.
-  assert (Hp' : places_ok (PE (g_epoch s)) (step c s ch)).
-  { apply (step_places _ True); [exact Hp | apply transfers_PE, Hidem | intros; exact I | intros x _ _ _; apply PE_submit | apply PE_shutdown]. }
   destruct (Z.eq_dec (g_epoch (step c s ch)) (g_epoch s)) as [Ee|Ne].
-  - unfold einv. rewrite Ee. split; [exact Hp'|]. unfold step. destruct (g_panic s); [exact Hl|].
+  - assert (Hp' : places_ok (PE (g_epoch s)) (step c s ch)).
+    { apply (step_places _ True); [exact Hp | apply transfers_PE, Hidem | intros; exact I | intros x _ _ _; apply PE_submit | apply PE_shutdown | left; exact Ee]. }
+    unfold einv. rewrite Ee. split; [exact Hp'|]. unfold step. destruct (g_panic s); [exact Hl|].
     destruct (g_panic (raw_step c s ch)); [eapply lab_same; [|exact Hl]; reflexivity | apply raw_step_lab; split; assumption].
-  - specialize (Hk Ne). split.
-    + eapply places_and; [exact Hp' | exact Hk | | |]; cbn [PE PQ PL PB].
-      * intros d m H1 H2. destruct d; try exact I; try (destruct H1 as [H1 H1']; split; [intros Hs; congruence | exact H1']).
-        destruct H1 as [[H1 H1'] H1'']. split; [split; [intros Hs; congruence | exact H1'] | exact H1''].
-      * intros k m [[H1 H1'] H1''] H2. split; [split; [intros Hs; congruence | exact H1'] | exact H1''].
-      * intros m [H1 H1'] H2. split; [intros Hs; congruence | exact H1'].
-    + unfold lab_inv. pose proof (po_bp _ _ Hp') as B1. pose proof (po_bp _ _ Hk) as B2. cbn [PE PB] in B1, B2.
+  - specialize (Hk Ne). destruct (transfers_PEw c (g_epoch s) (fun k => seq_get k (g_seqs s)) Hidem) as [Tw Ta].
+    assert (Hp' : places_ok PEw (step c s ch)).
+    { apply (step_places _ True); [eapply PE_PEw, Hp | exact Tw | intros; exact I | intros x _ _ _; apply PEw_submit | apply PEw_shutdown | right; exact Ta]. }
+    split.
+    + eapply places_and; [exact Hp' | exact Hk | | |]; cbn [PE PEw PQ PL PB].
+      * intros d m H1 H2. destruct d; try exact I; try (destruct H1 as [H1 H1']; split; [intros Hs; congruence | split; assumption]).
+        -- destruct H1 as [[H1 H1'] H1'']. split; [split; [intros Hs; congruence | split; assumption] | exact H1''].
+        -- split; [intros Hs; congruence | exact H1].
+      * intros k m [[H1 H1'] H1''] H2. split; [split; [intros Hs; congruence | split; assumption] | exact H1''].
+      * intros m H1 H2. split; [intros Hs; congruence | exact H1].
+    + unfold lab_inv. pose proof (po_bp _ _ Hp') as B1. pose proof (po_bp _ _ Hk) as B2. cbn [PEw PB] in B1, B2.
       rewrite Forall_forall in *. intros x Hx. specialize (B1 x Hx). specialize (B2 x Hx).
       assert (Hno : forall m, In m (bside_msgs x) -> is_data m = true -> False).
-      { intros m Hm Hd. rewrite Forall_forall in B1, B2. destruct (B1 m Hm) as [_ H1]. specialize (B2 m Hm). unfold stamped in B2.
-        rewrite Hd, (H1 Hd) in B2. discriminate. }
+      { intros m Hm Hd. rewrite Forall_forall in B1, B2. pose proof (B1 m Hm Hd) as H1. specialize (B2 m Hm). unfold stamped in B2.
+        rewrite Hd, H1 in B2. discriminate. }
       constructor.
       * intros m Hm Hd. exfalso. apply (Hno m); [|exact Hd]. unfold bside_msgs, bp_msgs. apply in_or_app. left. apply in_or_app. left. exact Hm.
       * rewrite Forall_forall. intros st Hst m Hm Hd. exfalso. apply (Hno m); [|exact Hd]. unfold bside_msgs.
